@@ -411,7 +411,82 @@ fn run_positions_case(c: &Case) -> Result<(), String> {
     }
 }
 
+/// cache transparency (C13): `modes` is the base configuration; ops encode a sequence of builds through the global
+/// cache of near-identical variants; every scanner obtained through build() must behave like build_uncached()
+fn variant(base: &[ModeSpec], v: usize) -> Option<Vec<ModeSpec>> {
+    let mut m = base.to_vec();
+    match v {
+        0 => {}
+        1 => m[0].pats[0].tt += 7,
+        2 => {
+            if m[0].pats.len() < 2 { return None; }
+            m[0].pats.swap(0, 1)
+        }
+        3 => m[0].pats[0].la = match &m[0].pats[0].la { None => Some((true, "b".into())), Some(_) => None },
+        4 => m[0].pats[0].la = match &m[0].pats[0].la { None => Some((false, "b".into())), Some((p, l)) => Some((!*p, l.clone())) },
+        5 => m[0].name.push('x'),
+        6 => {
+            let tt = m[0].pats[0].tt;
+            if m[0].trans.iter().any(|t| t.0 == tt) { m[0].trans.retain(|t| t.0 != tt) } else { m[0].trans.push((tt, 0)); m[0].trans.sort(); }
+        }
+        7 => m[0].pats[0].p = "(".into(), // does not build
+        8 => { m[0].pats.pop(); if m[0].pats.is_empty() { return None; } }
+        _ => return None,
+    }
+    Some(m)
+}
+fn stream_of(sc: &scnr::Scanner, input: &str) -> Vec<(usize, usize, usize, usize)> {
+    let mut it = sc.find_iter(input);
+    let mut out = vec![];
+    while let Some(m) = it.next() {
+        out.push((m.token_type(), m.start(), m.end(), it.current_mode()));
+        if out.len() > input.len() + 2 { break; }
+    }
+    out
+}
+fn to_modes(ms: &[ModeSpec]) -> Vec<ScannerMode> {
+    ms.iter().map(|m| {
+        let pats: Vec<Pattern> = m.pats.iter().map(|p| {
+            let mut x = Pattern::new(p.p.clone(), p.tt);
+            if let Some((b, l)) = &p.la { x = x.with_lookahead(Lookahead::new(*b, l.clone())); }
+            x
+        }).collect();
+        ScannerMode::new(&m.name, pats, m.trans.clone())
+    }).collect()
+}
+fn run_cache_case(c: &Case) -> Result<(), String> {
+    let r = catch_unwind(AssertUnwindSafe(|| {
+        for op in &c.ops {
+            let v = match op { Op::SetMode(v) => *v, _ => 0 };
+            let Some(cfg) = variant(&c.modes, v) else { continue };
+            let ms = to_modes(&cfg);
+            let cached = ScannerBuilder::new().add_scanner_modes(&ms).build();
+            let plain = ScannerBuilder::new().add_scanner_modes(&ms).build_uncached();
+            match (cached, plain) {
+                (Err(_), Err(_)) => {}
+                (Ok(a), Ok(b)) => {
+                    let (sa, sb) = (stream_of(&a, &c.input), stream_of(&b, &c.input));
+                    if sa != sb {
+                        return Err(format!("variant {}: build() scanner yields {:?}, build_uncached() yields {:?}", v, sa, sb));
+                    }
+                    for i in 0..cfg.len() + 1 {
+                        if a.mode_name(i) != b.mode_name(i) {
+                            return Err(format!("variant {}: mode_name({}) = {:?} through the cache, {:?} without", v, i, a.mode_name(i), b.mode_name(i)));
+                        }
+                    }
+                }
+                (a, b) => return Err(format!("variant {}: build() is_ok={}, build_uncached() is_ok={}", v, a.is_ok(), b.is_ok())),
+            }
+        }
+        Ok(())
+    }));
+    match r { Ok(x) => x, Err(_) => Err("PANIC".into()) }
+}
+
 fn run_any(c: &Case) -> Result<(), String> {
+    if c.family == "cache" {
+        return run_cache_case(c);
+    }
     if c.with_positions {
         run_positions_case(c)
     } else {
@@ -527,6 +602,17 @@ fn gen_case(family: &str, r: &mut Rng) -> Case {
             }
             let start = if family == "offset" && r.below(2) == 0 { *r.pick(&b) } else { 0 };
             Case { family: family.into(), modes, input, start_offset: start, ops, with_positions: false }
+        }
+        "cache" => {
+            // unique pattern text per case so that earlier cases do not pre-populate the global cache with this configuration
+            let uniq = format!("q{}", r.next() % 1_000_000);
+            let np = 1 + r.below(3);
+            let mut pats = gen_pats(r, true, np, 0);
+            pats.push(PatSpec { p: uniq, tt: 90, la: None });
+            let input = gen_input(r, 6);
+            let nops = 2 + r.below(5);
+            let ops = (0..nops).map(|_| Op::SetMode(r.below(9))).collect();
+            Case { family: family.into(), modes: vec![ModeSpec { name: "M0".into(), pats, trans: vec![] }], input, start_offset: 0, ops, with_positions: false }
         }
         "positions" => {
             let pats = gen_pats(r, false, npat, 0);
